@@ -202,11 +202,14 @@ def exc_code(e):
             return Err(30, s)
         if "non-origin SOA" in s:
             return Err(31, s)
+        if "rdata list must not be empty" in s:
+            return Err(33, s)
         return Err(32, s)
     if isinstance(e, EOFError):
         return Err(40, "EOFError")
-    if isinstance(e, IndexError):
-        return Err(50, "IndexError")
+    if isinstance(e, (IndexError, StopIteration)):
+        # rdataset[0] on an RRset without rdata: dns.set.Set.__getitem__ does next(islice(...))
+        return Err(50, type(e).__name__)
     if isinstance(e, AssertionError):
         return Err(51, "AssertionError")
     if isinstance(e, KeyError):
@@ -293,7 +296,7 @@ def run_feed(case):
                 for rs in rrsets:
                     m.answer.append(rrset_of_case(rs, rel))
                 done = inbound.process_message(m)
-                res.append(-1 if done else 0)
+                res.append(1000 if done else 0)
     except Exception as e:  # noqa
         c = exc_code(e)
         if c.code >= 800:
@@ -963,12 +966,14 @@ def exhaustive_cases(ctx, rng):
 
 
 def feed_cases(ctx, rng, n):
-    """process_message called directly with hand-built messages (RRsets with several rdatas, calls after done)"""
+    """process_message called directly with hand-built messages (RRsets with several rdatas, empty RRsets,
+    calls after done, questions, rcodes, UDP)"""
     for _ in range(n):
         zk, rel = zk_rel(rng)
         chain = gen_chain(rng, rng.choice([1, 2]), size=rng.choice([1, 3]))
         s0 = soa_id(chain[0]) & 0xFFFFFFFF
         r = rng.random()
+        udp = 0
         if r < 0.4:
             rdt, ser, recs = IXFR, s0, ixfr_stream(rng, chain)
         elif r < 0.7:
@@ -979,6 +984,10 @@ def feed_cases(ctx, rng, n):
             i = rng.randrange(len(recs))
             recs.insert(i, list(recs[i]))
         chunks = split(recs, rand_cuts(rng, len(recs)))
+        if rdt == IXFR and rng.random() < 0.15:
+            udp = 1
+            if rng.random() < 0.7:
+                chunks = [recs]
         if rng.random() < 0.4:
             chunks.append([] if rng.random() < 0.5 else [list(recs[-1])])
         msgs = []
@@ -995,8 +1004,20 @@ def feed_cases(ctx, rng, n):
                             break
                 if not merged:
                     rrsets.append([x[0], x[1], x[2], x[3], x[4], [x[5]]])
-            msgs.append([0, [], rrsets])
-        yield "feed", [2, zk, rel, rdt, ser, 0, zdump(chain[0]), msgs, [ANY, None]]
+            if rng.random() < 0.12 and rrsets:
+                # an RRset without rdata (the "delete the whole name" path of delete_exact, rdataset[0] on an SOA)
+                j = rng.randrange(len(rrsets))
+                e = list(rrsets[j])
+                e[5] = []
+                if rng.random() < 0.5:
+                    rrsets[j] = e
+                else:
+                    rrsets.insert(j, e)
+            qs = []
+            if rng.random() < 0.15:
+                qs = [[rng.choice([0, 0, 0, 1]), rng.choice([rdt, rdt, rdt, AXFR, IXFR])]]
+            msgs.append([0 if rng.random() < 0.96 else 2, qs, rrsets])
+        yield "feed", [2, zk, rel, rdt, ser, udp, zdump(chain[0]), msgs, [ANY, None]]
 
 
 def misc_cases(ctx, rng):
@@ -1063,7 +1084,7 @@ def oracle(ctx, kind, case, out):
     if op == 2:
         res, dump = out
         z0 = case[6]
-        if -1 not in res and dump != z0:
+        if 1000 not in res and dump != z0:
             fail("the zone changed although no process_message call returned True", sig="changed-without-done")
         return F
     if op != 1:
